@@ -108,6 +108,107 @@ func c10Worker(in []byte) interface{} {
 
 func init() { vf.RegisterWorker("c10", c10Worker) }
 
+// c10DedupShapes: retain lists with repeated entries.
+var c10DedupShapes = []string{`filetype txt;
+
+stage MANY(
+    in  int x,
+    out txt alpha,
+    out txt beta,
+    out txt gamma,
+    out txt delta,
+    out txt epsilon,
+    src comp "/bin/true",
+) retain (
+    delta,
+    beta,
+    alpha,
+    beta,
+    epsilon,
+    gamma,
+)
+
+pipeline P(
+    in  int x,
+    out txt a,
+)
+{
+    call MANY(
+        x = self.x,
+    )
+
+    return (
+        a = MANY.alpha,
+    )
+}
+
+call P(
+    x = 1,
+)
+`, `filetype txt;
+
+stage TWO(
+    in  int x,
+    out txt zeta,
+    out txt eta,
+    out txt theta,
+    src comp "/bin/true",
+) retain (
+    zeta,
+    zeta,
+    theta,
+    eta,
+    theta,
+)
+
+stage THREE(
+    in  txt f,
+    out txt a,
+    out txt b,
+    out txt c,
+    out txt d,
+    src comp "/bin/true",
+) retain (
+    d,
+    c,
+    d,
+    b,
+    a,
+    a,
+)
+
+pipeline Q(
+    in  int x,
+    out txt r,
+)
+{
+    call TWO(
+        x = self.x,
+    )
+
+    call THREE(
+        f = TWO.zeta,
+    )
+
+    return (
+        r = THREE.a,
+    )
+
+    retain (
+        THREE.d,
+        TWO.eta,
+        THREE.d,
+        THREE.b,
+        TWO.eta,
+        THREE.c,
+    )
+}
+
+call Q(
+    x = 2,
+)
+`}
+
 // c10CallGraphErrorShapes: accepted by the compiler, rejected by call graph
 // resolution with more than one message (two inputs of one map call).
 var c10CallGraphErrorShapes = []string{`filetype csv;
@@ -338,6 +439,12 @@ func init() {
 				progs = append(progs, c10Input{Files: files, Reps: reps})
 				nontrivial = append(nontrivial, true)
 			}
+		}
+		// fixed shapes: declarations with repeated entries, which the compiler
+		// de-duplicates (stage and pipeline retain lists naming a parameter twice)
+		for _, text := range c10DedupShapes {
+			progs = append(progs, c10Input{Files: map[string]string{"main.mro": text}, Reps: reps})
+			nontrivial = append(nontrivial, true)
 		}
 		// fixed shapes: programs whose call graph resolution reports several errors
 		for _, text := range c10CallGraphErrorShapes {
